@@ -85,8 +85,13 @@ def run_case(c):
     out["si_eth"] = [[xy[0], xy[1], chars(ip)] for xy, ip in si.ethernet_connected_chips()]
     q = []
     for x, y, p, l, s in c.get("contains_queries", []):
-        q.append([1 if (x, y) in si else 0, 1 if (x, y, p) in si else 0, 1 if (x, y, Links(l)) in si else 0,
-                  1 if (x, y, p, consts.AppState(s)) in si else 0])
+        row = []
+        for item in ((x, y), (x, y, p), (x, y, Links(l)), (x, y, p, consts.AppState(s))):
+            try:
+                row.append(1 if item in si else 0)
+            except Exception:
+                row.append(2)
+        q.append(row)
     out["si_contains"] = q
     # ---- the place-and-route machine, reservations, table lengths
     try:
